@@ -6,7 +6,7 @@ from .graph import IG, cond_atoms
 from . import atomics as A
 
 
-def deep_find(ig, desc, pred, depth=0, seen=None):
+def deep_find(ig, desc, pred, depth=0, seen=None, through_args=False):
     """search a resolved descriptor, following locals' definitions and the
     return values of inlined calls, for a sub-descriptor satisfying pred"""
     if seen is None:
@@ -22,36 +22,33 @@ def deep_find(ig, desc, pred, depth=0, seen=None):
             return None
         seen.add(key)
         for o in ig.origins(desc):
-            if o is desc:
-                # unresolved event reference: look at the event's own operands
-                n = ig.ev_of(o)
-                if n is not None:
-                    th = ig.rthis(n)
-                    if th is not None:
-                        r = deep_find(ig, th, pred, depth + 1, seen)
-                        if r is not None:
-                            return r
-                continue
-            r = deep_find(ig, o, pred, depth + 1, seen)
-            if r is not None:
-                return r
+            if o is not desc:
+                r = deep_find(ig, o, pred, depth + 1, seen, through_args)
+                if r is not None:
+                    return r
             if isinstance(o, dict) and o.get("k") == "e" and "fr" in o:
+                # opaque event reference: look at the event's own operands
                 n = ig.ev_of(o)
                 if n is not None:
+                    ops = []
                     th = ig.rthis(n)
                     if th is not None:
-                        r = deep_find(ig, th, pred, depth + 1, seen)
+                        ops.append(th)
+                    if through_args:
+                        ops.extend(ig.resolve(a, n.frame) for a in n.ev.get("args", []))
+                    for x in ops:
+                        r = deep_find(ig, x, pred, depth + 1, seen, through_args)
                         if r is not None:
                             return r
         return None
     for key in ("b", "x", "l", "r", "t", "f", "i", "c"):
         v = desc.get(key)
         if isinstance(v, dict):
-            r = deep_find(ig, v, pred, depth + 1, seen)
+            r = deep_find(ig, v, pred, depth + 1, seen, through_args)
             if r is not None:
                 return r
     for v in desc.get("xs", []) or []:
-        r = deep_find(ig, v, pred, depth + 1, seen)
+        r = deep_find(ig, v, pred, depth + 1, seen, through_args)
         if r is not None:
             return r
     return None
